@@ -1,7 +1,7 @@
 #!/bin/bash
 # usage: confirm_mutant.sh <worktree> <letter>   -- confirms: suite passes with the change, demo fails with / passes without
 set -u
-WT=$1; L=$2
+WT=$1; L=$2; FLAGS=${3:-}; TC=${4:-}
 cd "$WT" || exit 2
 git checkout -q -- . ; rm -f tests/demo_*.rs
 export CARGO_NET_OFFLINE=true
@@ -10,9 +10,9 @@ echo "== suite with mutant"
 cargo test --offline --workspace --no-fail-fast 2>&1 | grep -E "^test result|FAILED|error(\[|:)" | sort | uniq -c
 cp "demo_$L.rs" "tests/demo_$L.rs"
 echo "== demo with mutant (must FAIL)"
-cargo test --offline --test "demo_$L" 2>&1 | grep -E "^test result|error(\[|:)" 
+cargo $TC test --offline $FLAGS --test "demo_$L" 2>&1 | grep -E "^test result|error(\[|:)" 
 git checkout -q -- .
 echo "== demo without mutant (must PASS)"
-cargo test --offline --test "demo_$L" 2>&1 | grep -E "^test result|error(\[|:)"
+cargo $TC test --offline $FLAGS --test "demo_$L" 2>&1 | grep -E "^test result|error(\[|:)"
 rm -f "tests/demo_$L.rs"
 git status --short | grep -v "^??" 
